@@ -495,6 +495,12 @@ class Directory(object):
     def unregister_computation(self, computation: ComputationName,
                                agent: AgentName=None):
         try:
+            if agent is not None and \
+                    self._computations_data[computation] != agent:
+                # Stale un-registration: the computation has been registered
+                # on another agent in the meantime (e.g. it has been re-hosted
+                # after its former agent left): keep the current host.
+                return
             self._computations_data.pop(computation)
             self.discovery.unregister_computation(computation, publish=False)
         except (KeyError, UnknownComputation):
@@ -606,9 +612,17 @@ class DiscoveryComputation(MessagePassingComputation):
 
     def _on_computation_removed(self, _: DiscoveryName,
                                 msg: UnPublishComputationMessage):
+        if msg.agent is not None:
+            try:
+                known_agent = self.discovery.computation_agent(msg.computation)
+            except UnknownComputation:
+                return
+            if known_agent != msg.agent:
+                # Stale notification: we already know the computation on
+                # another agent (it has been re-hosted in the meantime).
+                return
         self.discovery.unregister_computation(
             msg.computation, msg.agent, publish=False)
-        pass
 
     def _on_replica_publish(self, _, msg: PublishReplicaMessage):
         if msg.publish:
